@@ -10,7 +10,7 @@ import time
 import traceback
 import z3
 
-from .core import (Infeasible, Obligation, Path, PathEnd, PathResult, PyExc, SV, Unsupported, explore,
+from .core import (TList, Infeasible, Obligation, Path, PathEnd, PathResult, PyExc, SV, Unsupported, explore,
                    TObj, TOpt, Snapshot, SymIter)
 from .interp import Interp, PyFunc, _zb
 from .model import CallCtx, Contract, Model
@@ -326,6 +326,14 @@ def verify_function(model: Model, contract: Contract, timeout_ms=None, max_paths
                     if g.distinct:
                         dz = r2.distinct if z3.is_expr(r2.distinct) else z3.BoolVal(bool(r2.distinct))
                         path.oblige("returned-iterable.no-duplicates", dz, fs.where(), "post")
+            elif isinstance(r2, SV) and isinstance(r2.ty, TList):
+                # a list built by the function: membership in the final sequence
+                zz = z3.Const("ret_elem", g.elem_ty.sort())
+                seq = path.content(r2)
+                path.oblige("returned-iterable.members",
+                            z3.ForAll([zz], z3.Contains(seq, z3.Unit(zz)) == _zb(g.member(cc, zz))), fs.where(), "post")
+                if g.distinct:
+                    path.oblige("returned-iterable.no-duplicates", z3.BoolVal(False), fs.where(), "post")
             else:
                 from .interp import GenObj
                 from .core import ConcreteSeq
